@@ -317,12 +317,25 @@ fn parse_cron_part(
             if start.is_empty() {
                 return Err("Can't find start number of range".to_string());
             }
-            let start = parse_value(start, cron_type)?;
+            // In a day of week range, 7 (Sunday) is the day after Saturday (6). This allows ranges like `5-7` (Fri-Sun)
+            let parse_range_value = |value: &str| -> Result<u8, String> {
+                if cron_type == &CronPartType::DayOfWeek && value == "7" {
+                    Ok(7)
+                } else {
+                    parse_value(value, cron_type)
+                }
+            };
+            let start = parse_range_value(start)?;
             let end = range_parts.next().unwrap_or_default();
             if end.is_empty() {
                 return Err("Can't find end number of range".to_string());
             }
-            let end = parse_value(end, cron_type)?;
+            let end = parse_range_value(end)?;
+            let max = if cron_type == &CronPartType::DayOfWeek {
+                7
+            } else {
+                max
+            };
 
             if start > end {
                 return Err(
@@ -337,7 +350,13 @@ fn parse_cron_part(
                 ));
             }
 
-            values.extend(start..=end);
+            values.extend((start..=end).map(|value| {
+                if cron_type == &CronPartType::DayOfWeek && value == 7 {
+                    0
+                } else {
+                    value
+                }
+            }));
         } else {
             let value = parse_value(part, cron_type)?;
 
